@@ -23,6 +23,9 @@ def check(ctx):
     cursor.analyze(ctx, RULES | {"C09.a", "C10.b", "C10.a", "C01.e", "C11.b", "C11.a"})   # C01.e: reported span = attempt span shifted once by the offset (non-empty, in bounds)
     from . import panics
     panics.analyze(ctx, {"C07.d", "C07.e"})
+    # (C06.e: the iterator scans the caller's own input — a haystack that was trimmed, copied or re-encoded on the way gives spans that do not fit the string the caller holds)
+    from . import pC06
+    pC06.fresh_iterator_rules(ctx)
     from .common import cache_foundation, language_foundation
     language_foundation(ctx)
     cache_foundation(ctx)
